@@ -241,10 +241,13 @@ impl Parser for Markdown {
                 | pulldown_cmark::Event::Code(code) => {
                     let chunk_len = code.chars().count();
 
-                    tokens.push(Token {
-                        span: Span::new_with_len(traversed_chars, chunk_len),
-                        kind: TokenKind::Unlintable,
-                    });
+                    // Empty math (`$$$$`) has no text to cover.
+                    if chunk_len > 0 {
+                        tokens.push(Token {
+                            span: Span::new_with_len(traversed_chars, chunk_len),
+                            kind: TokenKind::Unlintable,
+                        });
+                    }
                 }
                 pulldown_cmark::Event::Text(text) => {
                     let chunk_len = text.chars().count();
